@@ -17,3 +17,13 @@ $(O)/fuzz_xml: $(O)/h/fuzz_xml.o $(O)/librt.a
 	$(CXX) $(SAN_asan) -fsanitize=fuzzer -o $@ $(O)/h/fuzz_xml.o $(O)/librt.a $(LDLIBS)
 fuzz_xml: $(O)/fuzz_xml
 .PHONY: fuzz_xml
+
+# small executor without sanitizers for the crash enumeration (C27): fork() of an ASan process costs ~100 ms, of this one ~1 ms
+FXC_OBJS := $(O)/h/fx_main_small.o $(O)/h/fx_store.o $(O)/h/fx_crash.o
+$(O)/h/fx_main_small.o: $(H)/fx_main.cpp $(CFGINC)/fix8/f8config.h
+	@mkdir -p $(@D)
+	$(CXX) $(CPPFLAGS) -DFX_SMALL $(CXXFLAGS) -c $< -o $@
+$(O)/fxc: $(FXC_OBJS) $(UT_OBJS) $(O)/librt.a
+	$(CXX) $(LDFLAGS) -rdynamic -o $@ $(FXC_OBJS) $(UT_OBJS) $(O)/librt.a $(LDLIBS)
+fxc: $(O)/fxc
+.PHONY: fxc
